@@ -1041,6 +1041,10 @@ fn scan_usk(tab: &mut Tab, b: &[u8]) {
         let d = tab.dec(f, data);
         if f == 12 {
             if let Some(sk) = d {
+                // the derivation from_checked_parts performs, with the key's own BIP 32 metadata
+                let iv = AccountPrivKey::from_bytes(&sk)
+                    .map(|k| k.to_account_pubkey().derive_external_ivk().ok().map(|i| i.serialize()));
+                tab.opt(23, &sk, 0, iv);
                 if let Some(pk) = orc_t_sk_pk(&sk) {
                     tab.some(3, &sk, 0, Some(pk.clone()));
                     let v = orc_t_pk_ivk(&pk);
@@ -1081,9 +1085,9 @@ fn mutate_usk(cx: &mut Ctx, enc: &[u8]) -> B {
             v[40 + 73 + 31] = 0xff;
         }
         14 => {
-            // transparent key: non-zero private-key prefix byte / depth byte
+            // transparent key: non-zero private-key prefix byte / depth byte (255: no child derivable)
             let pos = *cx.rng.pick(&[211usize + 41, 211]);
-            v[pos] = 1 + cx.rng.below(255) as u8;
+            v[pos] = if cx.rng.bool() { 0xff } else { 1 + cx.rng.below(255) as u8 };
         }
         0 => {
             let i = cx.rng.below(4) as usize;
